@@ -181,6 +181,95 @@ def _n(v):
     return v
 
 
+# ---------------------------------------------------------------------------------------------------------
+# two callers: a second query cuts into the first one at every line of library code it executes
+# ---------------------------------------------------------------------------------------------------------
+
+TWO_WORLDS = {'grid4x3': ('grid', [4, 3]), 'disc3x2x2': ('discrete', [3, 2, 2]), 'line5': ('line', [5])}
+# (entry, centre form, centre cell index, radius, incl_center, ret_type)
+TWO_QUERIES = [('moore', 'id', 1, 1, False, 'int'), ('neumann', 'tuple', -2, 2, True, 'tuple'),
+               ('neumann', 'id', 0, 1, False, 'int'), ('moore', 'tuple', -1, 2, True, 'tuple'),
+               ('generic_neumann', 'id', 2, 1, True, 'int'), ('generic_moore', 'tuple', 1, 1, False, 'tuple')]
+
+
+def _two_query(world, table, q):
+    entry, form, ci, r, incl, ret = q
+    centre = table[ci]
+    cpos = table.index(centre) if form == 'id' else centre
+    rt = int if ret == 'int' else tuple
+    metric = entry.split('_')[-1]
+    if metric == 'moore':
+        ball = [p for p in table if max(abs(p[i] - centre[i]) for i in range(3)) <= r]
+    else:
+        ball = [p for p in table if sum(abs(p[i] - centre[i]) for i in range(3)) <= r]
+    exp_t = [p for p in ball if incl or p != centre]
+    exp = exp_t if ret == 'tuple' else [table.index(p) for p in exp_t]
+    if entry == 'moore':
+        call = lambda: world.get_moore_neighbours(cpos, r, incl, rt)       # noqa
+    elif entry == 'neumann':
+        call = lambda: world.get_neumann_neighbours(cpos, r, incl, rt)     # noqa
+    else:
+        call = lambda: world.get_neighbours(cpos, radius=r, incl_center=incl, ret_type=rt, mode=metric)      # noqa
+    return call, exp
+
+
+def two_callers_case(case):
+    """Two neighbourhood queries on the same world by two threads, the second cutting into the first at every line of
+    library code the first one executes (or at the single point `k` when replaying): both get their own answer."""
+    from mc.engine import preempt
+    kind, dims = TWO_WORLDS[case['world']]
+    qa, qb = TWO_QUERIES[case['a']], TWO_QUERIES[case['b']]
+    expected = {}
+
+    def make():
+        reset_library()
+        world = mk(new_model(seed=1), kind, dims)
+        table = [tuple(p) for p in world.cells['pos']]
+        fa, expected['a'] = _two_query(world, table, qa)
+        fb, expected['b'] = _two_query(world, table, qb)
+        return fa, fb
+
+    def judge(k, box_a, box_b):
+        for who, box, q in (('first', box_a, qa), ('second', box_b, qb)):
+            exp = expected['a' if who == 'first' else 'b']
+            got = box.value
+            if box.error is not None or not isinstance(got, list) or [_n(v) for v in got] != exp:
+                raise Violation(f'two callers on one {case["world"]} world: the {who} query {q} gave a wrong answer when the '
+                                f'second query {qb} cut into the first {qa} at line event {k}', expected=exp,
+                                observed=repr(box.error) if box.error is not None else got)
+    n = 0
+    if 'k' in case:
+        fa, fb = make()
+        box_a, box_b, _ = preempt.run_schedule(fa, fb, case['k'])
+        judge(case['k'], box_a, box_b)
+        return 1
+    for item in preempt.explore(make):
+        if item[0] == 'n':
+            continue
+        k, box_a, box_b, _ = item
+        n += 1
+        try:
+            judge(k, box_a, box_b)
+        except Violation as v:
+            v.case_k = k
+            raise
+    return n
+
+
+def two_callers_fn(ctx, case):
+    ctx.traces += 1
+    try:
+        n = hbfs._guard(two_callers_case, case)
+        ctx.transitions += n
+        ctx.states += n
+        ctx.outcome(('two', case['world'], case['a'], case['b'], n))
+    except Violation as v:
+        c = dict(case)
+        if hasattr(v, 'case_k'):
+            c['k'] = v.case_k
+        ctx.report(c, v)
+
+
 def chunk_fn(ctx, chunk):
     for case in chunk:
         ctx.traces += 1
@@ -220,7 +309,15 @@ def run(ctx):
     for c in (cases[0], cases[len(cases) // 2], cases[-1]):
         ctx.sample(c)
     ctx.leg('shapes', shapes=len(cases))
+    if not ctx.violations and not ctx.small:
+        pairs = [(0, 1), (1, 0), (2, 3), (3, 2), (4, 5), (0, 0), (1, 5), (4, 2)]
+        two = [{'leg': 'two_callers', 'world': wn, 'a': a, 'b': b} for wn in TWO_WORLDS for a, b in pairs]
+        par.pmap(ctx, two_callers_fn, two, procs=ctx.procs)
+        ctx.leg('two_callers', pairs=len(two), note='one preemption at every library line of the first query (E5)')
 
 
 def replay(case):
+    if case['leg'] == 'two_callers':
+        hbfs._guard(two_callers_case, case)
+        return
     hbfs._guard(check_shape, case)
